@@ -370,6 +370,26 @@ func genContainer(c *Ctx) {
 				return [][]byte{cb, d}
 			}), facts, []W{WList(WInt(0), WInt(int64(len(set[victim].b))), WBytes(set[victim].b), WBytes(set[victim].b))})
 		}
+		// a complete section whose payload is a CID cut short (after its version, codec, hash code, digest length,
+		// inside the digest) or a whole CID with no data, in front of the victim and after the last block: the
+		// CID reader runs out of bytes inside a section, which is a corrupt entry and not the end of the file
+		{
+			cb := set[victim].c.Bytes()
+			for _, k := range []int{1, 2, 3, 4, 5, 20, len(cb) - 1, len(cb)} {
+				if k > len(cb) {
+					continue
+				}
+				short := cb[:k]
+				emitBoth("ctn/corrupt/short-section", true, build(func(i int, c2, d []byte) [][]byte {
+					if i == victim {
+						return [][]byte{short}
+					}
+					return [][]byte{c2, d}
+				}), facts, nil)
+				emitBoth("ctn/corrupt/short-section", true, append(build(nil), ldw(short)...), facts, nil)
+				emitBoth("ctn/corrupt/short-section", true, append(append(append([]byte{}, hdr...), ldw(short)...), build(nil)[len(hdr):]...), facts, nil)
+			}
+		}
 		// framing: truncated last section, zero-length section, oversize length, cut between blocks
 		full := build(nil)
 		emitBoth("ctn/corrupt/truncated-section", true, full[:len(full)-1-c.R.Intn(20)], facts, nil)
